@@ -295,9 +295,9 @@ def shards(tier, seed=1):
     groups = [["laplace", "sparse"], ["helmholtz"], ["modified", "sparse"], ["laplace"]]
     out = []
     for g in (rot(groups, seed, 2) if q else groups):
-        out.append({"check": "history", "fams": g, "fmm": False, "examples": 30 * n, "budget_s": 300 * n})
+        out.append({"check": "history", "fams": g, "fmm": False, "examples": 24 * n, "budget_s": 420 * n})
     for g in (rot(groups, seed + 1, 2) if q else groups):
-        out.append({"check": "history", "fams": g, "fmm": True, "examples": 18 * n, "budget_s": 300 * n})
+        out.append({"check": "history", "fams": g, "fmm": True, "examples": 16 * n, "budget_s": 420 * n})
     return out
 
 
@@ -348,7 +348,7 @@ def strategy(spec):
                                "k": st.just(None), "assembler": st.sampled_from(["dense", "fmm"] if use_fmm else ["dense"]),
                                "params": st.one_of(st.none(), st.tuples(orders).map(list))}).map(_fix_pot),
     )
-    return st.fixed_dictionaries({"steps": st.lists(step, min_size=4, max_size=22)})
+    return st.fixed_dictionaries({"steps": st.lists(step, min_size=4, max_size=14)})
 
 
 def _fix_pot(d):
